@@ -146,9 +146,12 @@ def run_batch(h, lines, workdir, tag, scale=1.0, maxstack=0, hard_timeout=1800):
             else:
                 # passes alone: death depends on the batch's history; record as such (still a process death)
                 recs.append((cul[0], cul[1], "batchdeath", 0, 0, "%s %s (alone: %s)" % (kind, site, alone[2])))
-        if ei + 1 < len(eps_of[li]):
+        timed_out_early = pending is None and cul[1] in ("syntax", "parsewa", "parsewz")
+        if ei + 1 < len(eps_of[li]) and not timed_out_early:
             start, skip = li, ei + 1
         else:
+            # (after a time-out of the scanner / parser stage the later stages of the same input are skipped:
+            # they would only hit the same limit again)
             start, skip = li + 1, 0
     for f in [bpath] + [os.path.join(workdir, "%s.%d.out" % (tag, k)) for k in range(1, rounds + 1)]:
         try:
@@ -297,15 +300,13 @@ class Seeds:
 
 # ------------------------------------------------------------------------------------------------ mutators
 
-DEPTHS_QUICK = [50, 1000, 10000, 100000]
-DEPTHS_THOROUGH = [50, 1000, 10000, 100000, 1000000]
+DEPTHS = [50, 1000, 10000, 100000]
 
 
 def pick_depth(rng, tier):
-    ds = DEPTHS_QUICK if tier == "quick" else DEPTHS_THOROUGH
-    # small depths most of the time; the largest ones rarely (cost)
-    w = [8, 6, 3, 1, 0.3][:len(ds)]
-    return rng.choices(ds, weights=w)[0]
+    # small depths most of the time; the largest rarely (each costs a full time limit on the quadratic paths);
+    # depths beyond 10^5 are probed systematically by the "deep"/"extreme" streams, not inside mutated seeds
+    return rng.choices(DEPTHS, weights=[8, 6, 3, 0.4])[0]
 
 
 def mutate_tokens(rng, data, toks, lang, pool, tier):
